@@ -3,14 +3,16 @@
 use crate::harness::H;
 
 pub mod c01;
+pub mod c09;
 
 pub fn known(p: &str) -> bool {
-    matches!(p, "C01")
+    matches!(p, "C01" | "C09")
 }
 
 pub fn run(h: &H) {
     match h.cfg.prop.as_str() {
         "C01" => c01::run(h),
+        "C09" => c09::run(h),
         _ => unreachable!(),
     }
 }
